@@ -1,4 +1,5 @@
 import Tv.Thm.C07
+import Tv.Thm.C07Gen
 #print axioms Tv.C07.coherent_vec
 #print axioms Tv.C07.coherent_vecdeque
 #print axioms Tv.C07.coherent_ndarray
@@ -8,3 +9,10 @@ import Tv.Thm.C07
 #print axioms Tv.C07.get_spec
 #print axioms Tv.C07.algo_view_indep
 #print axioms Tv.C07.feat_path_indep
+#print axioms Tv.C07Gen.same_reference
+#print axioms Tv.C07Gen.ts_vsum_path_indep
+#print axioms Tv.C07Gen.ts_vkurt_path_indep
+#print axioms Tv.C07Gen.ts_vmax_path_indep
+#print axioms Tv.C07Gen.ts_vrank_path_indep
+#print axioms Tv.C07Gen.ts_vcov_path_indep
+#print axioms Tv.C07Gen.ts_vreg_path_indep
